@@ -30,7 +30,7 @@ func setupRig(c *fakeCAS, mat *materialized, cfg worldConfig, merge bool) (*rig,
 		// Model: act<a>[/root] are empty, locally created directories.
 		cur := r.root
 		for _, name := range pth {
-			n := &mnode{kind: kindDir, tmpl: -1, expanded: true, children: map[string]*mnode{}}
+			n := &mnode{kind: kindDir, tmpl: -1, expanded: true, visited: true, children: map[string]*mnode{}}
 			cur.children[name] = n
 			cur = n
 		}
@@ -51,7 +51,7 @@ func countUnexpanded(r *rig) (unexpanded, expanded int) {
 			if c.kind != kindDir {
 				continue
 			}
-			if c.expanded {
+			if c.visited {
 				expanded++
 				walk(c)
 			} else {
